@@ -155,7 +155,7 @@ def run(run):
     rt = [e for e in evs if e["ev"] == "RoundTrip"]
     run.sample({k: (v if not isinstance(v, list) else v[:24]) for k, v in rt[0].items()})
     run.sample({k: (v if not isinstance(v, list) else v[:24]) for k, v in rt[len(rt) // 2].items()})
-    if not mism and not run.only:
+    if not run.only and not [m for m in mism if m[1] <= 12]:        # the self-test slice (the first 12 events) was accepted
         def corrupt(ev2):
             i = next(i for i, e in enumerate(ev2) if e["ev"] == "RoundTrip" and len(e["out"]) > 2)
             ev2[i]["out"] = [1 - ev2[i]["out"][0]] + ev2[i]["out"][1:]
